@@ -654,14 +654,10 @@ func (lv *Live) RuleHash(runtime, postBuild bool) []byte {
 	return append([]byte{}, build.RuleHash(State(), lv.T, runtime, postBuild)...)
 }
 
-// FreshHash is the hash of the attributes as they are now: the real RuleHash on the same object with the memo cleared
-// (and restored afterwards).
+// FreshHash is the hash of the attributes as they are now: the unexported ruleHash itself (hook src/build/verif_c08.go), which
+// neither reads nor writes the memo target.RuleHash.
 func (lv *Live) FreshHash(runtime bool) []byte {
-	saved := lv.T.RuleHash
-	lv.T.RuleHash = nil
-	h := append([]byte{}, build.RuleHash(State(), lv.T, runtime, false)...)
-	lv.T.RuleHash = saved
-	return h
+	return append([]byte{}, build.VerifC08RuleHash(State(), lv.T, runtime)...)
 }
 
 // CouldModify: can the build change this target? The harness's own reading of what build_step.go does (it runs the post-build
